@@ -18,7 +18,7 @@ import linecache
 from dataclasses import dataclass, field, make_dataclass
 from decimal import Decimal
 from fractions import Fraction
-from typing import Generic, NamedTuple, NotRequired, TypedDict, TypeVar
+from typing import Generic, List, NamedTuple, NotRequired, TypedDict, TypeVar
 
 import attrs
 
@@ -1028,10 +1028,130 @@ def shard_run(shard):
     return report
 
 
+# ------------------------------------------------------------------------------------------------------------
+# places leg: ONE pair of nested models at several places of one converter, with rules addressed by the place
+
+@dataclass
+class PPerson:
+    name: str
+    nick: str
+
+
+@dataclass
+class PPersonDTO:
+    name: str
+    role: str
+
+
+@dataclass
+class PBook:
+    title: str
+    author: PPerson
+    editor: PPerson
+    second_author: PPerson
+
+
+@dataclass
+class PBookDTO:
+    title: str
+    author: PPersonDTO
+    editor: PPersonDTO
+    second_author: PPersonDTO
+
+
+def _upper_nick(p):
+    return p.nick.upper()
+
+
+PLACES = ("author", "editor", "second_author")
+PLACE_RULES = (None, "const", "nick", "func")
+
+
+def places_leg(report, tier):
+    """every assignment of a rule {none, link_constant, link from nick, link_function} to each of the three places (fields) of the pair
+    PPerson -> PPersonDTO inside PBook -> PBookDTO, plus a class-level fallback rule, in both recipe orders; reference: the first
+    provider of the recipe whose predicate matches the place decides; a place without any rule makes the converter impossible.
+    After each converter a second one is asked from the SAME retort with another assignment (the history must not matter)."""
+    from adaptix import P as _P
+    from adaptix.conversion import ConversionRetort, link, link_constant, link_function
+
+    def rule(kind, pred, tag):
+        if kind == "const":
+            return link_constant(pred, value=f"const@{tag}")
+        if kind == "nick":
+            return link(_P[PPerson].nick, pred)
+        return link_function(_upper_nick, pred)
+
+    def expected_role(kind, tag, person):
+        return {"const": f"const@{tag}", "nick": person.nick, "func": person.nick.upper()}[kind]
+
+    book = PBook("T", PPerson("Ann", "a"), PPerson("Bob", "b"), PPerson("Cy", "c"))
+    people = {"author": [book.author], "editor": [book.editor], "second_author": [book.second_author]}
+
+    def program(assign, fallback, order):
+        place_rules = [rule(k, getattr(_P[PBookDTO], pl).role, pl) for pl, k in zip(PLACES, assign) if k]
+        fb = [rule(fallback, _P[PPersonDTO].role, "any")] if fallback else []
+        recipe = place_rules + fb if order == "places_first" else fb + place_rules
+        want = {}
+        for pl, k in zip(PLACES, assign):
+            eff = (k, pl) if k and (order == "places_first" or not fallback) else ((fallback, "any") if fallback else None)
+            if eff is None:
+                return recipe, None
+            want[pl] = [expected_role(eff[0], eff[1], person) for person in people[pl]]
+        return recipe, want
+
+    def run_one(retort, assign, fallback, order, history):
+        recipe, want = program(assign, fallback, order)
+        case = {"leg": "places", "assign": list(assign), "fallback": fallback, "order": order, "history": history}
+        report.case(("places", assign, fallback, order, str(history)), nontrivial=True, sample=case)
+        text = f"PBook -> PBookDTO with role rules {dict(zip(PLACES, assign))}, fallback {fallback}, {order}" + \
+               (f" (after a converter with {history} on the same retort)" if history else "")
+        try:
+            conv = retort.get_converter(PBook, PBookDTO, recipe=recipe)
+        except Exception as e:  # noqa: BLE001
+            report.outcome("places:ref=" + ("no" if want is None else "yes") + ",impl=refused")
+            if want is not None:
+                report.violation({"check": "C13.places", "problem": "refused"},
+                                 f"{text}: every place has a rule but the converter is refused: {type(e).__name__}", case)
+            return
+        report.outcome("places:ref=" + ("no" if want is None else "yes") + ",impl=ok")
+        if want is None:
+            report.violation({"check": "C13.places", "problem": "produced_although_a_place_has_no_rule"},
+                             f"{text}: converter produced although PPersonDTO.role has no source at some place", case)
+            return
+        try:
+            out = conv(copy.deepcopy(book))
+            got = {"author": [out.author.role], "editor": [out.editor.role], "second_author": [out.second_author.role]}
+            names = [out.author.name, out.editor.name, out.second_author.name]
+        except Exception as e:  # noqa: BLE001
+            report.violation({"check": "C13.places", "problem": "call_failed"}, f"{text}: {type(e).__name__}: {str(e)[:100]}", case)
+            return
+        report.outcome("run=equal" if got == want else "run=differs")
+        if got != want or names != ["Ann", "Bob", "Cy"] or out.title != "T":
+            report.violation({"check": "C13.places", "problem": "rule_of_another_place_applied"},
+                             f"{text}: roles {got}, the rules addressed by place give {want}", case)
+
+    assigns = list(itertools.product(PLACE_RULES, repeat=len(PLACES)))
+    for assign in assigns:
+        for fallback in PLACE_RULES:
+            for order in ("places_first", "fallback_first"):
+                run_one(ConversionRetort(), assign, fallback, order, None)
+    # histories of two converters on one retort: the second assignment is a rotation of the first
+    second = assigns if tier != "quick" else assigns[::5]
+    for assign in assigns:
+        for other in second:
+            if other == assign or not all(assign) or not all(other):
+                continue
+            retort = ConversionRetort()
+            run_one(retort, assign, None, "places_first", None)
+            run_one(retort, other, None, "places_first", list(assign))
+
+
 def run(tier):
     report = Report()
     shards = [(fam, tier, i) for fam in FAMILIES for i in range(N_SHARDS)]
     parallel.run_shards(shard_run, shards, report=report)
+    places_leg(report, tier)
     return report
 
 
@@ -1070,6 +1190,11 @@ def extra_evidence(report, tier):
 
 def replay(case):
     report = Report()
+    if case.get("leg") == "places":
+        places_leg(report, "quick")
+        for v in report.violations.values():
+            return v["what"]
+        return None
     case = {k: v for k, v in case.items() if k != "k"}
     evaluate(case, report)
     for v in report.violations.values():
